@@ -373,7 +373,7 @@ def k_random(run, case):
         R = np.array(R)
     seg = np.linalg.norm(np.diff(p, axis=0), axis=1)
     if unit == "f":
-        delta = int(rng.integers(1, n + 2))
+        delta = int(rng.integers(1, n + 2)) if rng.random() < .85 else int(rng.integers(n, 2 * n + 3))
     elif unit == "m":
         total = float(np.sum(seg))
         delta = total * 10.0**rng.uniform(-2.5, 0.2) + 1e-12 if rng.random() < .9 else total * 3 + 1.0
